@@ -1432,6 +1432,48 @@ def run_rooted(ctx, impl, files, names, quick):
             ctx.check_time()
 
 
+BLANK_LIB = """HED version="1.0.0" library="testlib" withStandard="8.3.0" unmerged="True"
+
+'''Prologue'''
+x
+
+!# start schema
+
+'''Own-top''' <nowiki>[ ]</nowiki>
+* Own-child <nowiki>[A child.]</nowiki>
+
+
+!# end schema
+
+'''Unit classes'''
+
+'''Unit modifiers'''
+
+'''Value classes'''
+
+'''Schema attributes'''
+
+'''Properties'''
+
+'''Epilogue'''
+
+!# end hed
+"""
+
+
+def run_blank_description_probe(ctx, impl):
+    """proposed finding C05-blank-description-empty-string (enabled with C05_PROBE_BLANK=1 until it is registered or
+    fixed): a MediaWiki source whose description is blank loads as '' and comes back as None from every save"""
+    s = impl.from_string(BLANK_LIB, ".mediawiki")
+    case = {"kind": "blank-description", "schema": "library source with [ ] as description"}
+    ctx.case(("blank-description",), nontrivial=True)
+    for fmt in ("xml", "mediawiki"):
+        got, _ = save_load(impl, s, fmt, False)
+        if not (got == s):
+            ctx.violation("reload-differs", dict(case, fmt=fmt, merged=False), first_diff(s, got),
+                          "C05-blank-description-empty-string")
+
+
 def run(ctx):
     ctx.extra["rule"] = ("bundled schemas x {xml, mediawiki, tsv} x {merged, unmerged where partnered} (string and file "
                          "round trips), generated XML edits (add/remove/re-attribute nodes, value-taking children, rooted "
@@ -1482,10 +1524,12 @@ def run(ctx):
             g = EditGen(ctx.rng, ET.parse(files[n]).getroot(), n)
             for fam in FAMILIES:
                 run_edit(ctx, impl, n, files, [g.probe_op(fam)], families=(fam,))
+        if os.environ.get("C05_PROBE_BLANK"):
+            run_blank_description_probe(ctx, impl)
         run_partnered_units(ctx, impl, files, names, quick)
         run_rooted(ctx, impl, files, names, quick)
         # generated edits
-        n_schemas = 8 if quick else 220
+        n_schemas = 8 if quick else 160
         per = 5
         pool = [n for n in names]
         for i in range(n_schemas):
